@@ -192,6 +192,10 @@ func (x *Exec) unitReturn(st *State, fr *Frame, res []Val, in *ssa.Return) {
 			}
 			continue
 		}
+		if cl.Kind == "apply" {
+			x.applyLemma(st, fr, cl, binds, in)
+			continue
+		}
 		g := x.evalClause(st, fr, cl, binds)
 		x.oblige(st, fr, "post."+cl.Label, "post", cl.Label, g, in, nil)
 	}
@@ -569,7 +573,7 @@ func (x *Exec) callByContract(st *State, fr *Frame, callee *ssa.Function, c *Con
 		st.ghost["failed:any"] = TV{SBool, da}
 	}
 	for _, cl := range c.Ensures {
-		if cl.Kind == "lemma" {
+		if cl.Kind == "lemma" || cl.Kind == "apply" {
 			continue // proof-internal: speaks about the callee's locals
 		}
 		st.assume(x.evalAssume(st, cf, cl, binds))
@@ -616,4 +620,80 @@ func (x *Exec) invokeSymbolic(st *State, fr *Frame, cc *ssa.CallCommon, iv Iface
 	x.extUsed["UNKNOWN interface method "+cc.Method.FullName()] = true
 	x.havocForUnknown(st, args)
 	k(st, fr, x.symResult(st, cc))
+}
+
+// applyLemma: `//@ apply [label] pkg.verifLemmaX(ghost arguments)` at a return of a lemma function uses
+// a pure lemma function (one without results and without effects) at spec terms that no Go value
+// holds (a clock reading, the signature the signer returned): its preconditions are obligations
+// here, its postconditions are then known. The lemma function itself is a unit of the same scope.
+func (x *Exec) applyLemma(st *State, fr *Frame, cl *Clause, binds map[string]SV, in *ssa.Return) {
+	call, ok := cl.Expr.(*ast.CallExpr)
+	if !ok {
+		x.oos = append(x.oos, fmt.Sprintf("%s:%d: apply [%s] needs a call", cl.File, cl.Line, cl.Label))
+		return
+	}
+	guard := "true"
+	if id, isId := call.Fun.(*ast.Ident); isId && id.Name == "imp__" && len(call.Args) == 2 {
+		// guarded application: cond ==> lemma(args)
+		ge := x.newEnv(st, fr, binds)
+		gv := ge.eval(call.Args[0])
+		inner, isCall := call.Args[1].(*ast.CallExpr)
+		if ge.err != nil || !isCall {
+			x.oos = append(x.oos, fmt.Sprintf("%s:%d: apply [%s]: cannot evaluate the guard: %v", cl.File, cl.Line, cl.Label, ge.err))
+			return
+		}
+		guard = ge.boolOf(gv)
+		call = inner
+	}
+	var pkg *ssa.Package
+	var name string
+	switch f := call.Fun.(type) {
+	case *ast.Ident:
+		pkg, name = fr.fn.Pkg, f.Name
+	case *ast.SelectorExpr:
+		if id, isId := f.X.(*ast.Ident); isId {
+			for _, p := range x.prog.AllPackages() {
+				if p.Pkg.Name() == id.Name && strings.HasPrefix(p.Pkg.Path(), modPath) {
+					pkg = p
+				}
+			}
+			name = f.Sel.Name
+		}
+	}
+	var callee *ssa.Function
+	if pkg != nil {
+		callee = pkg.Func(name)
+	}
+	if callee == nil {
+		x.oos = append(x.oos, fmt.Sprintf("%s:%d: apply [%s]: unknown lemma function", cl.File, cl.Line, cl.Label))
+		return
+	}
+	full := callee.Pkg.Pkg.Path() + "." + callee.Name()
+	c := x.contracts[full]
+	if c == nil || !c.Pure || !isLemmaUnit(full) || callee.Signature.Results().Len() != 0 || len(call.Args) != len(callee.Params) {
+		x.oos = append(x.oos, fmt.Sprintf("%s:%d: apply [%s]: %s is not a pure lemma function of that arity", cl.File, cl.Line, cl.Label, full))
+		return
+	}
+	env := x.newEnv(st, fr, binds)
+	cf := &Frame{fn: callee, vals: map[ssa.Value]Val{}, params: map[string]Val{}, cutLoops: map[int]*loopCut{}, contract: c}
+	for i, a := range call.Args {
+		v := env.eval(a)
+		if env.err != nil || v.V == nil {
+			x.oos = append(x.oos, fmt.Sprintf("%s:%d: apply [%s]: cannot evaluate argument %d: %v", cl.File, cl.Line, cl.Label, i+1, env.err))
+			return
+		}
+		cf.vals[callee.Params[i]] = v.V
+		cf.params[callee.Params[i].Name()] = v.V
+	}
+	cf.entry = st.fork()
+	for i, rq := range c.Requires {
+		g := x.evalClause(st, cf, rq, nil)
+		x.oblige(st, fr, fmt.Sprintf("apply.%s.r%d", cl.Label, i+1), "lemma", cl.Label, tImp(guard, g), in, nil)
+	}
+	for _, en := range c.Ensures {
+		if en.Kind != "ensures" {
+			continue
+		}
+		st.assume(tImp(guard, x.evalAssume(st, cf, en, nil)))
+	}
 }
